@@ -101,22 +101,45 @@ def py_issue(w, cfg, op, call):
             return ("err", "%s: %s" % (type(e).__name__, str(e)[:200]))
     try:
         with quiet_fds():
+            form = op.get("argform", "plain")
+            if form == "strided":
+                # non-contiguous inputs: the data as every second row of a larger array, the index arrays as strided
+                # views of an interleaved (start, filler) array - the documented inputs are "array_like"
+                big = np.zeros((2 * arr.shape[0],) + arr.shape[1:], dtype=arr.dtype)
+                big[0::2] = arr
+                arr = big[0::2]
             if op["op"] == "w":
                 ret = w.rf_write(arr, op["idx"])
             else:
-                ret = w.rf_write_blocks(arr, np.array(op["g"], dtype=np.uint64) if op.get("u64", True) else op["g"],
-                                        np.array(op["d"], dtype=np.uint64) if op.get("u64", True) else op["d"])
+                g = np.array(op["g"], dtype=np.uint64)
+                d = np.array(op["d"], dtype=np.uint64)
+                if form == "strided":
+                    gi = np.full(2 * len(g), 2 ** 40, dtype=np.uint64)
+                    di = np.full(2 * len(d), 2 ** 40, dtype=np.uint64)
+                    gi[0::2], di[0::2] = g, d
+                    g, d = gi[0::2], di[0::2]
+                elif form == "list":
+                    g, d = [int(x) for x in op["g"]], [int(x) for x in op["d"]]
+                elif form == "int64":
+                    g, d = g.astype(np.int64), d.astype(np.int64)
+                ret = w.rf_write_blocks(arr, g, d)
         return ("ok", int(ret))
     except Exception as e:  # the contract is "rejected with an error": any type
         return ("err", "%s: %s" % (type(e).__name__, str(e)[:200]))
 
 
-def run_python(cfg, ops, chdir, per_step=None):
-    """Run ops through DigitalRFWriter.  Returns list of per-op results."""
+def run_python(cfg, ops, chdir, per_step=None, end="close"):
+    """Run ops through DigitalRFWriter.  Returns list of per-op results.
+
+    end: how the session ends - "close" (explicit close()), "with" (context manager), "del" (the writer object is just
+    dropped: the extension's capsule destructor has to finalize the last file)."""
+    import gc
+
     os.makedirs(chdir, exist_ok=True)
     with quiet_fds():
         w = open_py_writer(cfg, chdir)
     results = []
+    last = None
     try:
         for call, op in enumerate(ops):
             r = py_issue(w, cfg, op, call)
@@ -126,8 +149,16 @@ def run_python(cfg, ops, chdir, per_step=None):
                 per_step(call, op, results[-1], w)
     finally:
         with quiet_fds():
-            w.close()
-    results.append({"status": "closed", "ret": None, "get": py_getters(w)})
+            if end == "del":
+                last = py_getters(w)
+                del w
+                gc.collect()
+            elif end == "with":
+                with w:
+                    pass
+            else:
+                w.close()
+    results.append({"status": "closed", "ret": None, "get": last if end == "del" else py_getters(w)})
     return results
 
 
